@@ -10,6 +10,7 @@ import (
 	"bytes"
 	"crypto/ed25519"
 	"crypto/rand"
+	"encoding/binary"
 	"encoding/hex"
 	"encoding/json"
 	"fmt"
@@ -876,7 +877,19 @@ func (e *env) runUDP(sc scenario, ob *obs, dns bool) {
 	if dns {
 		be, port = e.db, 53
 		id = uint16(r.Intn(65536))
-		pl = gen.DNSQuery(id, r.Alnum(6)+".test", 1)
+		pl = gen.DNSQuery(id, r.Alnum(6)+".test", uint16(r.PickI([]int{1, 28, 15, 16, 33, 255})))
+		switch sc.Sub % 6 {
+		case 1: // no question at all: the bare header (a valid message; a server-cookie query looks like this plus an OPT record)
+			pl = append(binary.BigEndian.AppendUint16(nil, id), 0x01, 0x00, 0, 0, 0, 0, 0, 0, 0, 0)
+		case 2: // no question, one OPT pseudo-record in the additional section
+			pl = append(binary.BigEndian.AppendUint16(nil, id), 0x01, 0x00, 0, 0, 0, 0, 0, 0, 0, 1, 0, 0, 41, 0x10, 0, 0, 0, 0, 0, 0, 0)
+		case 3: // two questions
+			q2 := gen.DNSQuery(0, r.Alnum(5)+".example", 28)[12:]
+			pl = append(pl, q2...)
+			pl[5] = 2
+		case 4: // opcode STATUS, no question
+			pl = append(binary.BigEndian.AppendUint16(nil, id), 0x10, 0x00, 0, 0, 0, 0, 0, 0, 0, 0)
+		}
 	} else {
 		pl = append([]byte(fmt.Sprintf("dg-%d|", sc.Sub)), r.Bytes(r.PickI([]int{1, 10, 500, 1400}))...)
 	}
